@@ -11,6 +11,7 @@ import (
 	"math/rand"
 	"strings"
 	"sync"
+	"sync/atomic"
 	"testing"
 	"time"
 
@@ -163,7 +164,16 @@ func TestC10(t *testing.T) {
 			return "ok", nil
 		}, "q": func(ctx context.Context, req *jrpc2.Request) (any, error) { return "q", nil }}
 		srv := jrpc2.NewServer(mux, &jrpc2.ServerOptions{AllowPush: true, Concurrency: 8}).Start(sch)
-		cli := jrpc2.NewClient(cch, &jrpc2.ClientOptions{OnCallback: func(ctx context.Context, req *jrpc2.Request) (any, error) { return "cbres", nil }})
+		var ncb atomic.Int32
+		cli := jrpc2.NewClient(cch, &jrpc2.ClientOptions{OnCallback: func(ctx context.Context, req *jrpc2.Request) (any, error) {
+			switch ncb.Add(1) % 4 {
+			case 1: // a failure report whose data is not JSON: the reply must still be a whole message
+				return nil, &jrpc2.Error{Code: 9, Message: "cb failed", Data: json.RawMessage(`{"partial":`)}
+			case 2: // a pre-encoded result that is not JSON
+				return json.RawMessage(`[1,2`), nil
+			}
+			return "cbres", nil
+		}})
 		var wg sync.WaitGroup
 		stopAt := time.Now().Add(3 * time.Millisecond)
 		for g := 0; g < 6; g++ {
